@@ -6,6 +6,8 @@ import F3.Proofs.RestartEx
 import F3.Proofs.MultiParticipantNet
 import F3.Proofs.NoFailureBridge
 import F3.Proofs.NoFailureBridgeP
+import F3.Proofs.NetworkQuiet
+import F3.Proofs.SignedNetwork
 /-!
 # C01 — Agreement
 
@@ -554,5 +556,121 @@ theorem agreement_model_participant_unconditional_nonvacuous :
   ⟨⟨exNetVP⟩, ex_network_decides.1, ex_network_decides.2.1, ex_networkVP_decides⟩
 
 end NoFailureCorollaries
+
+/-! ## AUDIT2 M4 / M5: quiet honest members; `W` and the table instantiated from signed messages
+
+M4. `NetworkV` demands a `Start` of **every** honest committee member; a member that never begins the instance
+(crash-silent, lagging) could only be declared Byzantine. `F3.Audit2.NetworkV'` lets an honest member's op list be
+empty (`ValidRun'`: `ops = []`, or `Start` once followed by alarms and deliveries); such a member has no vote in `W`
+and reports nothing.
+
+M5. `agreement_from_key_usage` composes `F3.ValidBridge.validMsg_MsgValid` (C05: what the validator accepts is
+`MsgValid`) with the network theorem: `W := Wsig Signed net inst supp c`, `t := tableOf c`, deliveries are wire messages
+accepted by `validMsg`, and the `valid` / `own` / `nonMembers` fields are *derived* from `F3.Audit2.KeyUsage`. -/
+section Audit2
+open F3.Instance F3.Bridge F3.Audit2
+
+/-- **Agreement with honest members that never begin the instance.** `N : NetworkV' t F W`: as `NetworkV`, but each
+honest committee member either made no call at all on the instance or called `Start` once and then received alarms
+and (validated or foreign) deliveries in any order; its votes in `W` are exactly its broadcasts (none, if it never
+started). Quiet members do **not** count against the `< 1/3` bound. Any two honest members that report a decision
+report the same value. -/
+theorem agreement_model_quiet {t : Table} {F : Finset Pid} {W : Instance.Votes} (N : NetworkV' t F W)
+    (p q : Pid) (hp : p ∈ (ids t).toFinset) (hpF : p ∉ F) (hq : q ∈ (ids t).toFinset) (hqF : q ∉ F) (dp dq : Just)
+    (hdp : (run (init (N.runs p hp hpF).cfg t (N.runs p hp hpF).input) (N.runs p hp hpF).ops).1.termination = some dp)
+    (hdq : (run (init (N.runs q hq hqF).cfg t (N.runs q hq hqF).input) (N.runs q hq hqF).ops).1.termination = some dq) :
+    dp.value = dq.value :=
+  model_agreement_quiet N p q hp hpF hq hqF dp dq hdp hdq
+
+/-- The honest rules of Layer A hold of every such network. -/
+theorem model_satisfies_rules_quiet {t : Table} {F : Finset Pid} {W : Instance.Votes} (N : NetworkV' t F W) :
+    (world t F W).Rules := N.rules
+
+/-- a quiet member has no vote in existence and reports no decision -/
+theorem quiet_member_silent {t : Table} {F : Finset Pid} {W : Instance.Votes} (N : NetworkV' t F W)
+    (p : Pid) (hp : p ∈ (ids t).toFinset) (hpF : p ∉ F) (hq : (N.runs p hp hpF).quiet) :
+    (∀ r ph v, ¬ W p r ph v) ∧
+    (run (init (N.runs p hp hpF).cfg t (N.runs p hp hpF).input) (N.runs p hp hpF).ops).1.termination = none :=
+  ⟨(N.runs p hp hpF).quiet_no_votes hq, (N.runs p hp hpF).quiet_no_decision hq⟩
+
+/-- `agreement_model_unconditional` is the special case in which every honest member started -/
+theorem agreement_model_unconditional_from_quiet {t : Table} {F : Finset Pid} {W : Instance.Votes} (N : NetworkV t F W)
+    (p q : Pid) (hp : p ∈ (ids t).toFinset) (hpF : p ∉ F) (hq : q ∈ (ids t).toFinset) (hqF : q ∉ F) (dp dq : Just)
+    (hdp : (run (init (N.runs p hp hpF).cfg t (N.runs p hp hpF).input)
+      (.start (N.runs p hp hpF).start :: (N.runs p hp hpF).ops)).1.termination = some dp)
+    (hdq : (run (init (N.runs q hq hqF).cfg t (N.runs q hq hqF).input)
+      (.start (N.runs q hq hqF).start :: (N.runs q hq hqF).ops)).1.termination = some dq) :
+    dp.value = dq.value :=
+  agreement_model_quiet (ofNetworkV N) p q hp hpF hq hqF dp dq hdp hdq
+
+/-- Non-vacuity: four members of equal power; 1 and 2 honest and running, **3 honest and never starting**, 4 Byzantine
+(equivocating in QUALITY, a COMMIT for bottom of its also exists); member 1 decides `[7, 8]`. With member 3 counted as
+faulty the bound `3·2 < 4` would fail, so `agreement_model_unconditional` does not apply to this network. -/
+theorem agreement_model_quiet_nonvacuous :
+    Nonempty (NetworkV' exTbl exF qW) ∧
+    (qNet.runs 3 (by decide) (by decide)).quiet ∧ ¬ (qNet.runs 1 (by decide) (by decide)).quiet ∧
+    qW 4 0 .quality [7, 8, 9] ∧ qW 4 0 .quality [7, 8] ∧
+    (∃ d, (run (init (qNet.runs 1 (by decide) (by decide)).cfg exTbl (qNet.runs 1 (by decide) (by decide)).input)
+      (qNet.runs 1 (by decide) (by decide)).ops).1.termination = some d ∧ d.value = [7, 8]) ∧
+    ¬ 3 * (exTbl.power 3 + exTbl.power 4) < exTbl.total :=
+  ⟨⟨qNet⟩, qNet_facts⟩
+
+open F3.Msg F3.Spec.ValidMsg F3.ValidBridge in
+/-- **Agreement from assumptions about key usage only (C05 ∘ C01).** Committee `c` (distinct ids, positive total
+scaled power), instance `inst` with supplemental data `supp` on network `net`; `Signed pub bytes`: key `pub` produced a
+signature over `bytes`; `Wire`: the wire messages in existence. `F`: the Byzantine members, with less than a third of
+the power. Every other member runs the instance model on a list of calls that is empty or `Start` followed by alarms
+and deliveries, each delivery being a wire message of this instance that C05's validity predicate `validMsg` accepts
+(or a message of another instance / supplemental data, refused at the door). `K : KeyUsage …`: (i) a signature token
+occurring in a wire message was produced by the key it names; (ii) the key registered for an honest member signs a vote
+of this instance only if that member's model run broadcast it (Byzantine members sign with their own keys only); (iii)
+every broadcast of an honest member's run is signed with its key. Then any two honest members that report a decision
+report the same value. -/
+theorem agreement_from_key_usage {Signed : Nat → SigMsg → Prop} {Wire : Msg.Msg → Prop} {net inst supp : Nat}
+    {c : Committee} {F : Finset Pid} {runs : SignedRuns Wire net inst supp c F}
+    (K : KeyUsage Signed Wire net inst supp c F runs) (hu : (c.entries.map (·.id)).Nodup)
+    (hT : 0 < c.total) (hF : 3 * (∑ p ∈ F, (tableOf c).power p) < c.total)
+    (p q : Pid) (hp : p ∈ (ids (tableOf c)).toFinset) (hpF : p ∉ F)
+    (hq : q ∈ (ids (tableOf c)).toFinset) (hqF : q ∉ F) (dp dq : Instance.Just)
+    (hdp : (run (init (runs p hp hpF).cfg (tableOf c) (runs p hp hpF).input) (runs p hp hpF).ops).1.termination = some dp)
+    (hdq : (run (init (runs q hq hqF).cfg (tableOf c) (runs q hq hqF).input) (runs q hq hqF).ops).1.termination = some dq) :
+    dp.value = dq.value :=
+  agreement_signed K hu hT hF p q hp hpF hq hqF dp dq hdp hdq
+
+open F3.Msg F3.Spec.ValidMsg F3.ValidBridge in
+/-- the fields `valid`, `own`, `nonMembers` of the network structures, derived from `KeyUsage` -/
+theorem network_fields_from_key_usage {Signed : Nat → SigMsg → Prop} {Wire : Msg.Msg → Prop} {net inst supp : Nat}
+    {c : Committee} {F : Finset Pid} {runs : SignedRuns Wire net inst supp c F}
+    (K : KeyUsage Signed Wire net inst supp c F runs) (hu : (c.entries.map (·.id)).Nodup) :
+    (∀ p hp hF, ∀ op ∈ (runs p hp hF).ops,
+      foreign op = true ∨ OpValidG (Wsig Signed net inst supp c) (tableOf c) op) ∧
+    (∀ p hp hF r ph v, Wsig Signed net inst supp c p r ph v ↔
+      ∃ tk j, Eff.broadcast r ph v tk j ∈ (run (init (runs p hp hF).cfg (tableOf c) (runs p hp hF).input) (runs p hp hF).ops).2) ∧
+    (∀ p, p ∉ (ids (tableOf c)).toFinset → ∀ r ph v, ¬ Wsig Signed net inst supp c p r ph v) :=
+  ⟨fun p hp hF => K.valid hu p hp hF, fun p hp hF r ph v => K.own p hp hF r ph v,
+    wsig_nonMembers Signed net inst supp c⟩
+
+/-- Non-vacuity of `agreement_from_key_usage`: the committee, signatures, wire messages and runs of
+`F3.Audit2.SignedEx` (members 1, 2 honest, member 3 Byzantine with two different PREPAREs signed) satisfy every
+hypothesis, honest members 1 and 2 both decide, and — as the theorem says — on the same value `[7, 8]`. -/
+theorem agreement_from_key_usage_nonvacuous :
+    (∃ d, (run (init (SignedEx.sRuns 1 (by decide) (by decide)).cfg (F3.ValidBridge.tableOf SignedEx.com)
+        (SignedEx.sRuns 1 (by decide) (by decide)).input) (SignedEx.sRuns 1 (by decide) (by decide)).ops).1.termination
+          = some d ∧ d.value = [7, 8]) ∧
+    (SignedEx.cb ≠ SignedEx.cv ∧ (103, SignedEx.sm F3.Msg.PREPARE SignedEx.cb) ∈ SignedEx.S ∧
+      (103, SignedEx.sm F3.Msg.PREPARE SignedEx.cv) ∈ SignedEx.S) ∧
+    ∀ dp dq,
+      (run (init (SignedEx.sRuns 1 (by decide) (by decide)).cfg (F3.ValidBridge.tableOf SignedEx.com)
+        (SignedEx.sRuns 1 (by decide) (by decide)).input) (SignedEx.sRuns 1 (by decide) (by decide)).ops).1.termination
+          = some dp →
+      (run (init (SignedEx.sRuns 2 (by decide) (by decide)).cfg (F3.ValidBridge.tableOf SignedEx.com)
+        (SignedEx.sRuns 2 (by decide) (by decide)).input) (SignedEx.sRuns 2 (by decide) (by decide)).ops).1.termination
+          = some dq → dp.value = dq.value :=
+  ⟨SignedEx.signed_example.2.2.2.2.2, ⟨by decide, SignedEx.signed_example.2.2.2.1, SignedEx.signed_example.2.2.2.2.1⟩,
+    fun dp dq hdp hdq =>
+      agreement_from_key_usage SignedEx.sKey SignedEx.signed_example.1 SignedEx.signed_example.2.1
+        SignedEx.signed_example.2.2.1 1 2 (by decide) (by decide) (by decide) (by decide) dp dq hdp hdq⟩
+
+end Audit2
 
 end F3.Props.C01
